@@ -144,6 +144,13 @@ class Policy:
             if self.rng.random() < prob:
                 return self.rng.choice([t for t in runnable if t != tid])
             return tid
+        if kind == "burst":
+            # pre-empt heavily while threads are in their first steps (first
+            # use of shared objects), rarely afterwards
+            prob = self.params["p_early"] if sched.step <= self.params["k"] else self.params["p"]
+            if self.rng.random() < prob:
+                return self.rng.choice([t for t in runnable if t != tid])
+            return tid
         if kind == "pct":
             prio = self.params["prio"]
             if sched.step in self.params["change_points"]:
